@@ -15,6 +15,11 @@ FAULTS = [
     ("wrong-closure-param", ("int", "i32"), ("int", 3), "|x: &String| x.len() > 1", "|x: &String| x.len() > 1"),
     ("wrong-range-type", ("string",), ("str", "abc"), "1..=5", "1..=5"),
     ("wrong-variant", ("int", "i32"), ("int", 3), "Some(3)", "Some"),
+    ("missing-like-impl-regex", ("int", "i32"), ("int", 3), '=~ "a.c"', '"a.c"'),
+    ("wrong-literal-in-slice", ("vec", ("int", "i32")), ("seq", [("int", 3)]), '["x"]', '"x"'),
+    ("wrong-literal-in-set", ("vec", ("int", "i32")), ("seq", [("int", 3)]), '#("x")', '"x"'),
+    ("wrong-map-key-type", ("map", ("string",), ("int", "i32")), ("map", [("str", "k")], [("int", 1)]), '#{ 5: 1 }', "5"),
+    ("wrong-ne-operand", ("bool",), ("bool", True), "!= 1", "1"),
 ]
 STRUCT_FAULTS = [
     ("unknown-field", "Inner { nope: 1, .. }", "nope"),
